@@ -587,9 +587,9 @@ def run(tier, seed, replay=None):
                    random_execs=(150, 5000)),
         MonitorOnlyPart(["after_three", "past_due"]),
         AtomicPart("epolltimer", "scn_c07_epoll.cpp", EP_SOURCES, "epolltimer", EP_SCENARIOS, extra_srcs=["rt_io.cpp"],
-                   quick=dict(preemptions=2, max_execs=400), thorough=dict(preemptions=3, max_execs=40000),
-                   random_execs=(80, 4000)),
-        MonitorOnlyPart(["ep_three"], name="epollmonitors", scn_cpp="scn_c07_epoll.cpp", libs=EP_SOURCES, extra_srcs=["rt_io.cpp"], quick=(300, 80)),
+                   quick=dict(preemptions=2, max_execs=1000), thorough=dict(preemptions=3, max_execs=40000),
+                   random_execs=(150, 4000)),
+        MonitorOnlyPart(["ep_three"], name="epollmonitors", scn_cpp="scn_c07_epoll.cpp", libs=EP_SOURCES, extra_srcs=["rt_io.cpp"], quick=(600, 100)),
     ]
     return run_check(
         "C07", tier, seed,
